@@ -97,7 +97,7 @@ def get(prog, path):
     return cur
 
 
-RAISE_KINDS = ["expr", "expr", "expr", "py", "arg"]
+RAISE_KINDS = ["expr", "expr", "pysc", "py", "arg", "expr"]
 UNDEF_NAME = "missing_name_zq"
 
 
@@ -106,6 +106,9 @@ def raise_node(kind):
         return {"t": "py", "code": ["raise Boom('py')"], "oneline": True}
     if kind == "arg":
         return {"t": "expr", "e": "str(boom(Boom))"}
+    if kind == "pysc":
+        # a plain Python function made caller-aware with runtime.supports_caller: it pushes a caller frame of its own
+        return {"t": "expr", "e": "pysc(context)"}
     if kind == "undef":
         # under strict_undefined the NameError is raised on entry of the callable that reads the name, before its body
         # runs; planted only as the FIRST node of a def / block body, where "on entry" and "at this node" coincide
@@ -151,6 +154,8 @@ def plant(prog, rpath, ridx, kind, hpath=None, hidx=None):
 
 def ref_run(prog, mode="render"):
     ctx = tenv.make_ctx()
+    ctx["context"] = None
+    ctx["pysc"] = lambda c: ctx["boom"](tenv.Boom, "pysc")
     it = tgen.Interp(prog, ctx, filters=tenv.ref_filters(ctx))
     try:
         out = it.render()
@@ -173,6 +178,9 @@ def mako_run(src, mode, uri, strict=False):
     ctx = tenv.make_ctx()
     pre = tenv.Boom("prebuilt")
     ctx["boom"] = lambda cls=None, msg="boom": (_ for _ in ()).throw(pre)
+    from mako import runtime as _rt
+
+    ctx["pysc"] = _rt.supports_caller(lambda context: ctx["boom"]())
     kw = {}
     handled = []
     if mode == "error_handler":
@@ -192,13 +200,27 @@ def mako_run(src, mode, uri, strict=False):
             handled.append(error)
             return False
         kw["error_handler"] = eh2
+    # format_exceptions: all four combinations of render() / render_unicode() and with / without an inherited layout
+    variant = (len(src) % 4) if mode == "format_exceptions" else 0
     try:
-        t = Template(src, uri=uri, imports=tenv.IMPORTS, **kw)
+        if variant & 2:
+            from mako.lookup import TemplateLookup
+
+            lk = TemplateLookup(imports=tenv.IMPORTS, **kw)
+            lk.put_string("/c13base_%s" % uri.strip("/"), "BASE[${next.body()}]END")
+            lk.put_string(uri, '<%%inherit file="/c13base_%s"/>\n' % uri.strip("/") + src)
+            t = lk.get_template(uri)
+        else:
+            t = Template(src, uri=uri, imports=tenv.IMPORTS, **kw)
     except Exception as e:
         return ("compile-exc", type(e).__name__, str(e)[:200])
     if mode in ("render", "error_handler", "format_exceptions", "handler_declines_baseexc"):
         try:
-            out = t.render_unicode(**ctx)
+            out = t.render(**ctx) if variant & 1 else t.render_unicode(**ctx)
+            if isinstance(out, bytes):
+                out = out.decode("utf-8")
+            if variant & 2:
+                return ("ok", out, handled, pre, "inherit")
             return ("ok", out, handled, pre)
         except BaseException as e:
             if isinstance(e, trun._Timeout):
@@ -288,7 +310,7 @@ def check_case(case, ev=None, want_caught=False):
         if ref[0] == "exc":
             if ref[1] not in got[1]:
                 raise Failure(case, "error page does not name %s: %r%s" % (ref[1], got[1][:200], tag), "format_exceptions:no-type")
-        elif got[1] != ref[1]:
+        elif got[1] != (("BASE[\n" + ref[1] + "]END") if got[-1] == "inherit" else ref[1]):
             raise Failure(case, "mako rendered %r, reference %r%s" % (got[1], ref[1], tag), "handled:output-differs")
     elif mode == "second":
         r = got[1]
